@@ -96,6 +96,55 @@ impl Shape for Heap {
     }
 }
 
+/// a key without drop glue and a value that owns heap memory (and the other way round): code that
+/// asks `needs_drop` about the wrong half of the pair leaks or double-frees only for these
+pub struct PlainKeyOwnedVal;
+impl Shape for PlainKeyOwnedVal {
+    type K = u8;
+    type V = Box<[u8; 24]>;
+    const NAME: &'static str = "plain-key-owned-value";
+    const ALLOCATES: bool = true;
+    const MAX_CLASS: u8 = 255;
+    fn k(c: u8) -> u8 {
+        c
+    }
+    fn v(c: u8) -> Box<[u8; 24]> {
+        Box::new([c; 24])
+    }
+    fn kc(k: &u8) -> u8 {
+        *k
+    }
+    fn vc(v: &Box<[u8; 24]>) -> u8 {
+        v[0]
+    }
+    fn set_v(v: &mut Box<[u8; 24]>, c: u8) {
+        **v = [c; 24]
+    }
+}
+pub struct OwnedKeyPlainVal;
+impl Shape for OwnedKeyPlainVal {
+    type K = String;
+    type V = u8;
+    const NAME: &'static str = "owned-key-plain-value";
+    const ALLOCATES: bool = true;
+    const MAX_CLASS: u8 = 255;
+    fn k(c: u8) -> String {
+        Heap::k(c)
+    }
+    fn v(c: u8) -> u8 {
+        c
+    }
+    fn kc(k: &String) -> u8 {
+        Heap::kc(k)
+    }
+    fn vc(v: &u8) -> u8 {
+        *v
+    }
+    fn set_v(v: &mut u8, c: u8) {
+        *v = c
+    }
+}
+
 pub struct Large;
 impl Shape for Large {
     type K = u32;
@@ -277,7 +326,7 @@ fn supported(name: &str) -> bool {
     matches!(
         name,
         "insert" | "insert_key_value" | "checked_insert" | "get" | "get_key_value" | "contains_key" | "get_mut" | "index" | "index_mut" | "remove"
-            | "remove_entry" | "retain" | "clear" | "from_iter" | "from_array" | "clone" | "s_insert" | "s_replace" | "s_contains" | "s_get" | "s_remove"
+            | "remove_entry" | "retain" | "clear" | "from_iter" | "from_array" | "clone" | "drain" | "cursor" | "s_insert" | "s_replace" | "s_contains" | "s_get" | "s_remove"
             | "s_take" | "s_retain" | "s_clear" | "s_extend" | "s_from_iter"
     )
 }
@@ -329,8 +378,15 @@ fn max_val(t: &Value) -> u8 {
 fn edge_map<S: Shape, const N: usize>(t: &Value, line: usize, rep: &mut Report) {
     let op = &t["o"];
     let name = op["name"].as_str().unwrap();
-    let mut fails: Vec<Fail> = vec![];
+    if name == "cursor" && !(op["kind"].as_str().unwrap_or("").starts_with("into_") && op["end"] == "drop" && op["fin"] == "none") {
+        return;
+    }
+    if name == "drain" && !(op["end"] == "drop" && op["fin"] == "none") {
+        return;
+    }
+    let mut fails: Vec<Fail> = Vec::with_capacity(4);
     let mut allocs = 0u64;
+    let live0 = ledger::live_blocks();
     let mut cage = Cage::new(Map::<S::K, S::V, N>::new());
     for e in t["s"].as_array().unwrap() {
         cage.m.insert(S::k(e[0].as_u64().unwrap() as u8), S::v(e[2].as_u64().unwrap() as u8));
@@ -428,6 +484,37 @@ fn edge_map<S: Shape, const N: usize>(t: &Value, line: usize, rep: &mut Report) 
             None => json!(["panic"]),
             Some(()) => json!(["unit"]),
         },
+        "drain" | "cursor" => {
+            // n items are taken and dropped, then the cursor is dropped: every element of the container
+            // must have been released exactly once by then (the live-block balance below), nothing twice
+            let n = op["n"].as_u64().unwrap_or(0) as usize;
+            let taken = if name == "drain" {
+                measured(&mut allocs, || {
+                    let mut d = m.drain();
+                    let mut c = 0;
+                    for _ in 0..n {
+                        if d.next().is_some() {
+                            c += 1;
+                        }
+                    }
+                    c
+                })
+            } else {
+                let mm = std::mem::take(m);
+                match op["kind"].as_str().unwrap() {
+                    "into_iter" => measured(&mut allocs, || mm.into_iter().take(n).count()),
+                    "into_keys" => measured(&mut allocs, || mm.into_keys().take(n).count()),
+                    _ => measured(&mut allocs, || mm.into_values().take(n).count()),
+                }
+            };
+            if taken != Some(n) {
+                fails.push(Fail { props: "C10".into(), msg: format!("[{}] {name}: took {taken:?} items, asked for {n}", S::NAME) });
+            }
+            if !m.is_empty() {
+                fails.push(Fail { props: "C10".into(), msg: format!("[{}] the container is not empty after {name}", S::NAME) });
+            }
+            Value::Null
+        }
         "from_iter" => {
             let items: Vec<(S::K, S::V)> = op["items"]
                 .as_array()
@@ -493,7 +580,16 @@ fn edge_map<S: Shape, const N: usize>(t: &Value, line: usize, rep: &mut Report) 
     if !S::ALLOCATES && allocs > 0 {
         fails.push(Fail { props: "C06".into(), msg: format!("[{}] {allocs} allocator call(s) inside a non-panicking container call ({name})", S::NAME) });
     }
+    drop(obs);
     drop(cage);
+    drop(probe);
+    // everything the edge created is gone: with heap-owning elements the number of live heap blocks
+    // is back where it started unless an element was leaked (fewer frees) or freed twice (the process
+    // would normally have died already)
+    let live1 = ledger::live_blocks();
+    if S::ALLOCATES && live1 != live0 && fails.is_empty() {
+        fails.push(Fail { props: "C02".into(), msg: format!("[{}] {} heap block(s) still live after {name} and the drop of the container: elements were leaked", S::NAME, live1 - live0) });
+    }
     finish(t, line, fails, rep);
 }
 
@@ -670,6 +766,8 @@ pub fn run_shapes(table: &Table, set_mode: bool, rep: &mut Report) -> std::colle
             go!(Heap, edge_map_h, t, idx, n);
             go!(Large, edge_map_l, t, idx, n);
             go!(NoDropClone, edge_map_c, t, idx, n);
+            go!(PlainKeyOwnedVal, edge_map_pk, t, idx, n);
+            go!(OwnedKeyPlainVal, edge_map_ok, t, idx, n);
             crate::replay::with_n!(n, edge_tagged, t, idx, rep);
         }
         *rep.op_counts.entry(crate::replay::op_label(&t["o"])).or_insert(0) += 1;
@@ -690,6 +788,8 @@ adapters! {
     edge_map_h => edge_map, Heap;
     edge_map_l => edge_map, Large;
     edge_map_c => edge_map, NoDropClone;
+    edge_map_pk => edge_map, PlainKeyOwnedVal;
+    edge_map_ok => edge_map, OwnedKeyPlainVal;
     edge_set_z => edge_set, Zst;
     edge_set_sc => edge_set, SmallCopy;
     edge_set_h => edge_set_nocopy, Heap;
